@@ -23,6 +23,22 @@ type c12Case struct {
 	Edit   string   `json:"edit"`
 	New    []string `json:"new"`
 	Second bool     `json:"second_file"`
+	// Delim: the file uses `-- atlas:delimiter \n\n` (statements separated by a blank line, the
+	// delimiter is not part of the statement text), so a statement may hold several commands
+	Delim bool `json:"custom_delimiter,omitempty"`
+	// K2 > K: the resumed run (with the edited tail) fails again at statement K2, the tail is edited
+	// once more (New2) and a third run must complete the file
+	K2   int      `json:"k2,omitempty"`
+	New2 []string `json:"new2,omitempty"`
+}
+
+func fileOfDelim(stmts []string) string {
+	var b strings.Builder
+	b.WriteString("-- atlas:delimiter \\n\\n\n")
+	for _, s := range stmts {
+		b.WriteString(s + "\n\n")
+	}
+	return b.String()
 }
 
 func fileOf(stmts []string) string {
@@ -36,10 +52,25 @@ func fileOf(stmts []string) string {
 func (c *c12Case) toExec() *execCase {
 	mk := func(st []string) []dirFile {
 		d := []dirFile{{"1_a.sql", fileOf(st)}}
+		if c.Delim {
+			d = []dirFile{{"1_a.sql", fileOfDelim(st)}}
+		}
 		if c.Second {
 			d = append(d, dirFile{"2_b.sql", "Z1;\n"})
 		}
 		return d
+	}
+	if c.K2 > 0 {
+		// the index of the operation that executes statement K2 in the resumed run is found by c12FaultAt
+		return &execCase{
+			Dir: mk(c.Old), Cfg: MCfg{Order: "linear", Clean: true},
+			Attempts: []caseTry{
+				{Faults: []int{1 + 2*c.K}},
+				{Faults: nil, Dir: mk(c.New)},
+				{Faults: nil, Dir: mk(c.New2)},
+				{Faults: nil},
+			},
+		}
 	}
 	// attempt 0: statement K (0-based) fails => Applied = K. op indices: 0 = start write, 1+2j = stmt j.
 	return &execCase{
@@ -101,6 +132,22 @@ func c12Monitor(c *c12Case, at []AttemptOut) (ok bool, sig, what string) {
 	}
 	if c.K == 0 {
 		return true, "", "" // nothing applied: not a partially applied file
+	}
+	if c.K2 > 0 {
+		if at[1].Res != "stmt" || hxJSON(at[1].Journal) != hxJSON(c.New[c.K:c.K2]) {
+			return false, "setup", fmt.Sprintf("second attempt did not run statements %d..%d: %q %v", c.K, c.K2, at[1].Res, at[1].Journal)
+		}
+		want := append([]string{}, c.New2[c.K2:]...)
+		if c.Second {
+			want = append(want, "Z1;")
+		}
+		if at[2].Res != "ok" || hxJSON(at[2].Journal) != hxJSON(want) {
+			return false, "tail-edit-not-resumed-after-second-failure", fmt.Sprintf("fail at %d, tail edit, resume fails at %d, tail edit: third run gives %q and executes %v, want %v (old=%v new=%v new2=%v)", c.K, c.K2, at[2].Res, at[2].Journal, want, c.Old, c.New, c.New2)
+		}
+		if len(at[3].Calls) != 0 {
+			return false, "re-executed-after-completion", fmt.Sprintf("attempt 3 executed %v after the file was completed", at[3].Calls)
+		}
+		return true, "", ""
 	}
 	if !prefixEq(c.Old, c.New, c.K) {
 		if !strings.HasPrefix(at[1].Res, "history:") {
@@ -203,14 +250,71 @@ func runC12(e *Env) error {
 					}
 				}
 			}
+			// custom delimiter: a command moves across a statement boundary (the concatenated text, hence
+			// the last cumulative checksum, stays the same)
+			if n >= 2 {
+				two := make([]string, n)
+				for i := range two {
+					two[i] = fmt.Sprintf("A%d;B%d;", i, i)
+				}
+				for i := 0; i+1 < n; i++ {
+					fw := append([]string{}, two...)
+					fw[i], fw[i+1] = fmt.Sprintf("A%d;", i), fmt.Sprintf("B%d;", i)+two[i+1]
+					bw := append([]string{}, two...)
+					bw[i], bw[i+1] = two[i]+fmt.Sprintf("A%d;", i+1), fmt.Sprintf("B%d;", i+1)
+					for k := 0; k < n; k++ {
+						cases = append(cases,
+							c12Case{Old: two, K: k, Edit: fmt.Sprintf("resplit-forward@%d", i), New: fw, Delim: true},
+							c12Case{Old: two, K: k, Edit: fmt.Sprintf("resplit-backward@%d", i), New: bw, Delim: true},
+							c12Case{Old: two, K: k, Edit: "none", New: append([]string{}, two...), Delim: true, Second: true})
+					}
+				}
+			}
+			// two failures: fail at k, tail edited, the resumed run fails at k2 > k, tail edited again, third run
+			for k := 1; k < n; k++ {
+				for k2 := k + 1; k2 < n; k2++ {
+					for _, delim := range []bool{false, true} {
+						n1 := append([]string{}, old...)
+						n1[n-1] = "T1;"
+						n2 := append([]string{}, n1...)
+						n2[n-1] = "T2;"
+						if k2 < n-1 {
+							n2[k2] = "U2;"
+						}
+						cases = append(cases, c12Case{Old: old, K: k, Edit: "tail-twice", New: n1, K2: k2, New2: n2, Delim: delim, Second: k2%2 == 0})
+					}
+				}
+			}
 		}
 	}
-	e.Res.Rule = fmt.Sprintf("exhaustive: files of 1..%d statements x partial progress k in [0,n) x {none, change/delete/swap/insert at every index, truncate to every length} x {alone, followed by a second file}; 4 attempts each (fail at k, edited+rehashed resume, two more runs); non-trivial = k>=1; distinct by (old,k,new,second)", maxN)
+	e.Res.Rule = fmt.Sprintf("exhaustive: files of 1..%d statements x partial progress k in [0,n) x {none, change/delete/swap/insert at every index, truncate to every length} x {alone, followed by a second file} + custom-delimiter files whose commands move across a statement boundary (same concatenated text) + two failures with two tail edits (fail at k, resume fails at k2 > k, third run); 4 attempts each (fail at k, edited+rehashed resume, two more runs); non-trivial = k>=1; distinct by (old,k,new,second)", maxN)
 	e.Res.Exhaustive = e.Replay == ""
 	type job struct{ c c12Case }
 	parallel(e.Workers, len(cases), func(i int) {
 		c := cases[i]
 		ec := c.toExec()
+		if c.K2 > 0 {
+			// dry run to locate the operation executing statement K2 in the resumed attempt
+			probe, _, err := runExecImpl(ec, true)
+			if err != nil || len(probe.Attempts) < 2 {
+				return
+			}
+			seen, at := 0, -1
+			for i, op := range probe.Attempts[1].Ops {
+				if op == "stmt" {
+					if seen == c.K2-c.K {
+						at = i
+						break
+					}
+					seen++
+				}
+			}
+			if at < 0 {
+				e.Res.Violate("failing-input", "tail-edit-not-resumed", fmt.Sprintf("resumed run after a tail edit does not reach statement %d: %s ops=%v (old=%v k=%d new=%v)", c.K2, probe.Attempts[1].Res, probe.Attempts[1].Ops, c.Old, c.K, c.New), "Props.C12", map[string]any{"case": c})
+				return
+			}
+			ec.Attempts[1].Faults = []int{at}
+		}
 		impl, req, err := runExecImpl(ec, true)
 		if err != nil {
 			e.Res.Note("case error: %v", err)
